@@ -135,7 +135,10 @@ def rhs_bvf_prelude(ctx):
     """vocabulary for an operand Bvf<J,N2>: word-level names under suffix XJ, wf/bits of Bvf<J,_>, chunk spec (J words -> I chunks)"""
     p = ["iarray.rs"]
     if ctx["J"] != ctx["I"]:
-        p += [("word.rs", {"I": "{J}", "X": "_{J}"}), ("bvf.rs", {"I": "{J}", "X": "_{J}"})]
+        p += [("word.rs", {"I": "{J}", "X": "_{J}"})]
+        if "SGN" in ctx:
+            p += [("value_word.rs", {"I": "{J}", "X": "_{J}"})]
+        p += [("bvf.rs", {"I": "{J}", "X": "_{J}"})]
     p += [("chunk.rs", RHS_J)]
     same = INT_BITS[ctx["I"]] == INT_BITS[ctx["J"]]
     p += ["cast_same.rs" if same else "cast_same_dummy.rs"]
@@ -151,6 +154,18 @@ def rhs_bvf_items(ctx):
 
 GROUPS["bvf_bitops"] = dict(name="bvf_bitops", prelude=lambda ctx: BVF_PRELUDE + rhs_bvf_prelude(ctx),
     items=lambda ctx: BVF_BASE + rhs_bvf_items(ctx) + stub(BVF_CORE) + verify(["bvf.binop_bvf"]))
+
+ARITH = {
+    "add": dict(OPT="AddAssign", OPM="add_assign", CM="cadd", SGN="+", STEP="lemma_addc_step", FIN="lemma_add_final"),
+    "sub": dict(OPT="SubAssign", OPM="sub_assign", CM="csub", SGN="-", STEP="lemma_borrow_step", FIN="lemma_sub_final"),
+}
+VALUE_PRELUDE = ["value.rs", "value_word.rs"]
+def rhs_value_prelude(ctx):
+    return [("value_word.rs", {"I": "{J}", "X": "_{J}"})] if ctx["J"] != ctx["I"] else []
+
+GROUPS["bvf_arith"] = dict(name="bvf_arith",
+    prelude=lambda ctx: WORD_PRELUDE + ["conv_std.rs"] + VALUE_PRELUDE + ["bvf.rs"] + rhs_bvf_prelude(ctx) + ["bvf_arith.rs"],
+    items=lambda ctx: BVF_BASE + rhs_bvf_items(ctx) + stub(BVF_CORE) + verify(["bvf.addsub_bvf"]))
 
 # -------------------------------------------------------------------------------------------------
 # property -> jobs
